@@ -102,6 +102,8 @@ class C02(Check):
             return
         if devs and not (wk == ("toy",) and len(struct) <= 2 and gap == 0.1):
             return      # second deviation: toy gene, <=2 copies, gap 0.1 (the thorough tier's deepest slice)
+        if wk != ("toy",) and len(struct) > 2:
+            return      # three-copy plantings of the generated worlds stay noise-free
         gene = worlds.gene_of(wk, build)
         base = self._base_table(gene, struct, planted)
         cells = []
